@@ -67,7 +67,7 @@ def media_header(m):
     b = m['base']
     return {'plain': b, 'charset': b + '; charset=utf-8', 'upper': b.upper(), 'charset_upper': b.upper() + '; Charset=UTF-8',
             'spaces': b + ' ; charset=utf-8', 'charset_ascii': b + '; charset=us-ascii',
-            'charset_latin1': b + '; charset=iso-8859-1'}[m['variant']]
+            'charset_latin1': b + '; charset=iso-8859-1', 'charset_unknown': b + '; charset=x-no-such-encoding'}[m['variant']]
 
 
 def reference(who, text_bytes, coro, loop):
